@@ -212,6 +212,25 @@ class CharacterClass(MutableSet[int]):
             else:
                 self.positive.update(part)
 
+    def _discard_subset(self, subset: Union[str, UnicodeSubset]) -> None:
+        # Removes from the positive part and extends the complemented part
+        if isinstance(subset, str):
+            self.positive.difference_update(subset)
+            if self.negative:
+                self.negative.update(subset)
+        else:
+            self.positive -= subset
+            if self.negative:
+                self.negative |= subset
+
+    def _discard_complement(self, subset: UnicodeSubset) -> None:
+        # Keeps only the members of the class that are in the subset
+        positive = self.positive - (self.positive - subset)  # intersection
+        if self.negative:
+            positive |= subset - self.negative
+            self.negative.clear()
+        self.positive = positive
+
     def discard(self, charset: Union[int, str]) -> None:
         if isinstance(charset, int):
             charset = chr(charset)
@@ -220,16 +239,11 @@ class CharacterClass(MutableSet[int]):
             if part in CHARACTER_ESCAPES:
                 value = CHARACTER_ESCAPES[part]
                 if isinstance(value, str):
-                    self.positive.difference_update(value)
-                    if self.negative:
-                        self.negative.update(value)
+                    self._discard_subset(value)
                 elif part[-1].islower():
-                    self.positive -= value()
-                    if self.negative:
-                        self.negative |= value()
+                    self._discard_subset(value())
                 else:
-                    self.positive &= value()
-                    self.negative.clear()
+                    self._discard_complement(value())
 
             elif part.startswith('\\p') or part.startswith('\\P'):
                 if self._re_unicode_ref.search(part) is None:
@@ -241,21 +255,27 @@ class CharacterClass(MutableSet[int]):
                     # XSD 1.1 supports Is prefix to match Unicode blocks
                     if not self.xsd_version or not part[3:].startswith('Is'):
                         raise
-                    self.positive -= UnicodeSubset([(0, maxunicode + 1)])
+                    if part.startswith('\\p'):
+                        self.clear()  # an unknown block matches any character
                 else:
                     if part.startswith('\\p'):
-                        self.positive -= subset
+                        self._discard_subset(subset)
                     else:
-                        self.negative -= subset
+                        self._discard_complement(subset)
             else:
-                self.positive.difference_update(part)
+                self._discard_subset(part)
 
     def clear(self) -> None:
         self.positive.clear()
         self.negative.clear()
 
     def complement(self) -> None:
-        if self.positive or self.negative:
+        if self.negative:
+            # The complement of the union of the positive part with the complement
+            # of the negative part is the negative part less the positive part.
+            self.positive = self.negative - self.positive
+            self.negative = UnicodeSubset()
+        elif self.positive:
             self.positive, self.negative = self.negative, self.positive
         else:
             self.positive.codepoints = [(0, maxunicode + 1)]
